@@ -140,6 +140,17 @@ def blockLen (bs sz i : Nat) : Nat := min bs (sz - i * bs)
 def splice (old : Bytes) (off : Nat) (data : Bytes) : Bytes :=
   old.take off ++ data ++ old.drop (off + data.length)
 
+/-- `b[off, off+len)` (shorter if the buffer ends earlier). -/
+def slice (b : Bytes) (off len : Nat) : Bytes := (b.drop off).take len
+
+/-- The (first) accepted answer for index `i` in a list of accepted answers; `[]` if none. -/
+def answerOf (A : List (Nat × Bytes)) (i : Nat) : Bytes :=
+  ((A.find? (fun p => p.1 == i)).map (·.2)).getD []
+
+/-- Concatenation of the answers by index. -/
+def assembled (bs sz : Nat) (A : List (Nat × Bytes)) : Bytes :=
+  (List.range (numBlocks bs sz)).flatMap (answerOf A)
+
 /-- Oracle for one `GotBlock` call, on observations: `reqd` = indexes requested so far,
 `before`/`after` = `Bytes` before and after the call, `ok` = the call returned nil. -/
 def acceptOk (bs sz : Nat) (reqd : List Nat) (index : Nat) (data before after : Bytes) (ok : Bool) : Bool :=
